@@ -3,7 +3,7 @@
 checks for PROPS against a scratch copy with the patch, and keep it as /verif/seeded/<ID>-m<k>/ (patch.diff, demo, meta.json)."""
 import sys, os, json, subprocess, shutil, re
 ID, K, PROPS = sys.argv[1], sys.argv[2], sys.argv[3].split(',')
-M = f'/tmp/wt/{ID}/mutants'
+M = os.environ.get('WT_ROOT', '/tmp/wt') + f'/{ID}/mutants'
 meta = json.load(open(f'{M}/m{K}_meta.json'))
 c = subprocess.run(['/verif/tools/confirm_mutant.sh', ID, K], capture_output=True, text=True).stdout.strip().splitlines()[-1]
 print(c)
